@@ -141,6 +141,16 @@ func (c *Config) ReadConfig(configFilePath string, flagSet *pflag.FlagSet, categ
 		return fmt.Errorf("unable to unmarshal config: %w", err)
 	}
 
+	// The Ethereum and Bitcoin networks are selected exclusively with the
+	// network flags. The `Network` fields are embedded in the unmarshalled
+	// structures, so a `network` key of the `ethereum` or `bitcoin` section of
+	// the config file would silently replace the resolved value. Re-apply
+	// the networks resolved from the flags.
+	if flagSet != nil {
+		c.Ethereum.Network = clientNetwork.Ethereum()
+		c.Bitcoin.Network = clientNetwork.Bitcoin()
+	}
+
 	// Resolve contracts addresses.
 	c.resolveContractsAddresses()
 
